@@ -156,6 +156,8 @@ def judge(ctx, sc, plan, pre0, pt, obs, model):
     leftovers = sorted(k for k in obs["post"]["tree"] if k.endswith(LEFTOVER) or k.startswith(".tmpRAND"))
     if leftovers:
         ctx.count("harmless_leftover:" + ("tmp" if leftovers[0].endswith(LEFTOVER) else "probe_dir"))
+    if obs["post"].get("lock_tmp"):
+        ctx.count("harmless_leftover:lock_tmp")
     if obs["post"]["lock"] == "full":
         ctx.count("orphan_lock_removed_by_next_command")
     if not comps:
